@@ -195,6 +195,7 @@ func (q *PriorityQueue) PopAtTimestamp(timestamp uint32) (*rtp.Packet, error) {
 // Clear will empty a PriorityQueue.
 func (q *PriorityQueue) Clear() {
 	next := q.next
+	q.next = nil
 	q.length = 0
 	for next != nil {
 		next.prev = nil
